@@ -170,6 +170,25 @@ def null_test(f, cond):
     return None
 
 
+def nonzero_operand(f, node, truth):
+    """the expression node that the atom (node, truth) says is non-zero: `x` true, `!x` false, `x != 0` true, `x == 0` false; else None"""
+    node = f.strip(node)
+    n = f.nodes[node]
+    for _ in range(4):
+        if n["k"] == "UnaryOperator" and n.get("op") == "!" and n["c"]:
+            node, truth = f.strip(n["c"][0]), not truth
+            n = f.nodes[node]
+            continue
+        break
+    if n["k"] == "BinaryOperator" and n.get("op") in ("==", "!=") and len(n["c"]) == 2:
+        z = [q.is_zero(f, c_) for c_ in n["c"]]
+        if z[0] != z[1]:
+            other = f.strip(n["c"][0] if z[1] else n["c"][1])
+            return other if (n["op"] == "!=") == bool(truth) else None
+        return None
+    return node if truth else None
+
+
 def _contradict(x, y):
     if x[0] == "val" and y[0] == "val":
         return x[1] == y[1] and x[2] != y[2]
@@ -795,6 +814,55 @@ def always_before(f, pos, must_nodes):
     if pos in must:
         return True
     return path_with_cuts(f, f.entry_pos(), pos, avoid=must, cut=cut, after_src=False) is None
+
+
+def always_after(f, pos, must_pos):
+    """does every path from `pos` to the exit that is consistent with the facts known at `pos` pass one of the positions `must_pos`?
+    (`const bool owned = x->ref != 0; if(owned) increment(x->ref); ...; if(owned) data = x;` - the second test repeats the first)"""
+    known = [(a[0], a[1]) for a in dominating_atoms(f, pos) if a[0] != "case"]
+    kc = [_canon(f, n_, t_) for n_, t_ in known]
+    cut = set()
+    for b in f.blocks.values():
+        c = b.get("cond")
+        if c is None or len(b["succ"]) != 2 or b.get("tk") == "SwitchStmt" or b["succ"][0] == b["succ"][1]:
+            continue
+        bp = (b["id"], len(b["el"]))
+        for k in (0, 1):
+            if b["succ"][k] is None:
+                continue
+            for an, tr in q.cond_atoms(f, c, k == 0):
+                if any(_contradict(_canon(f, an, tr), x) for x in kc) and _operands_stable(f, an, pos, bp):
+                    cut.add((b["id"], b["succ"][k]))
+    must = set(must_pos)
+    if pos in must:
+        return True
+    return path_with_cuts(f, pos, f.exit_pos(), avoid=must, cut=cut) is None
+
+
+def through_all_pass(f, pos, must_pos):
+    """every entry->exit path through `pos` that is consistent with the facts known at `pos` passes one of `must_pos` (before or after)"""
+    must = set(must_pos)
+    if not must:
+        return False
+    if pos in must:
+        return True
+    # before: reuse always_before's cuts through a node-free call
+    known = [(a[0], a[1]) for a in dominating_atoms(f, pos) if a[0] != "case"]
+    kc = [_canon(f, n_, t_) for n_, t_ in known]
+    cut = set()
+    for b in f.blocks.values():
+        c = b.get("cond")
+        if c is None or len(b["succ"]) != 2 or b.get("tk") == "SwitchStmt" or b["succ"][0] == b["succ"][1]:
+            continue
+        bp = (b["id"], len(b["el"]))
+        for k in (0, 1):
+            if b["succ"][k] is None:
+                continue
+            for an, tr in q.cond_atoms(f, c, k == 0):
+                if any(_contradict(_canon(f, an, tr), x) for x in kc) and _operands_stable(f, an, bp, pos):
+                    cut.add((b["id"], b["succ"][k]))
+    pre = path_with_cuts(f, f.entry_pos(), pos, avoid=must, cut=cut, after_src=False)
+    return pre is None or always_after(f, pos, must)
 
 
 def edge_atoms(f, blk, to_block):
